@@ -1,11 +1,126 @@
 (* C13 -- edits keep derived views coherent; transactions atomic; copies independent.
-   Statements only; proofs in Proofs.CacheProofs (model: Model.Cache). *)
+   Statements only; proofs in Proofs.Cache{Wf,Copy,Coh,World,Theorems,Examples}.  Model: Model.Cache (a heap of bond objects, live
+   molecules with atoms, adjacency of bond references, cache = list of (key, snapshot of the view it was computed from),
+   _changed, _backup).  W = the world invariant: every live molecule and every transaction backup is well formed and
+   cache-coherent, and no bond object belongs to two of them.  ops_ok = the contract of a history: attribute setters only
+   inside a transaction; union is not covered yet (hence _partial). *)
 From Coq Require Import ZArith List Bool.
 From Model Require Import PyBase Cache.
-From Proofs Require Import CacheProofs.
+From Proofs Require Import CacheProofs CacheWf CacheCopy CacheCoh CacheWorld CacheTheorems CacheExamples.
 Import ListNotations.
 Open Scope Z_scope.
 
-Theorem C13_wf_no_loop : forall h atoms adj n m r, wfa h atoms adj -> aslot adj n m = Some r -> n <> m.
-Proof. exact wfa_neq. Qed.
-Print Assumptions C13_wf_no_loop.
+(* the invariant holds in the empty world and is kept by every operation but union, for all histories *)
+Theorem C13_invariant_initial : W empty_state.
+Proof. exact W_empty. Qed.
+Print Assumptions C13_invariant_initial.
+
+Theorem C13_invariant_step_partial : forall s p, W s -> op_ok s p -> W (fst (step s p)).
+Proof. exact step_W. Qed.
+Print Assumptions C13_invariant_step_partial.
+
+Theorem C13_invariant_run_partial : forall ops s, W s -> ops_ok s ops -> W (fold_left (fun s p => fst (step s p)) ops s).
+Proof. exact run_W. Qed.
+Print Assumptions C13_invariant_run_partial.
+
+(* every cached entry of every live molecule outside a transaction equals derive k of the CURRENT molecule, for any derive
+   function that depends on what the key is computed from (ring family: non-special connectivity; components: connectivity;
+   anything else: the whole view); entries of the ring family / components are current even inside a transaction *)
+Theorem C13_cache_coherent_partial :
+  forall (value : Type) (derive : key -> view -> value),
+  (forall k a b, equiv_for k a b -> derive k a = derive k b) ->
+  forall ops s, W s -> ops_ok s ops ->
+  forall o, In o (live (run ops s)) ->
+    (forall k snap, fc k = true -> cget (o_cache o) k = Some snap -> derive k snap = derive k (view_of (s_heap (run ops s)) o)) /\
+    (o_backup o = None ->
+     forall k snap, cget (o_cache o) k = Some snap -> derive k snap = derive k (view_of (s_heap (run ops s)) o)).
+Proof. exact cache_coherent. Qed.
+Print Assumptions C13_cache_coherent_partial.
+
+(* the adjacency stays symmetric and aliased (both directions hold the same bond object), loop free, over exactly the atoms,
+   every reference allocated; _changed names existing atoms only: for live molecules and backups *)
+Theorem C13_adjacency_symmetric_aliased_partial : forall ops s, W s -> ops_ok s ops ->
+  forall o, In o (units (run ops s)) ->
+    keys (o_adj o) = keys (o_atoms o) /\ NoDup (keys (o_atoms o)) /\
+    (forall n m r, slot_of o n m = Some r -> slot_of o m n = Some r /\ n <> m /\ In m (keys (o_atoms o)) /\
+                                             exists c, hget (s_heap (run ops s)) r = Some c) /\
+    (forall l, o_changed o = Some l -> forall x, In x l -> In x (keys (o_atoms o))).
+Proof. exact adjacency_symmetric_aliased. Qed.
+Print Assumptions C13_adjacency_symmetric_aliased_partial.
+
+(* copies, substructures, backups: no bond object shared between two of the live units *)
+Theorem C13_copy_separate_partial : forall ops s, W s -> ops_ok s ops ->
+  forall l1 a l2, units (run ops s) = l1 ++ a :: l2 -> forall b, In b (l1 ++ l2) ->
+  forall r, In r (refs_of_adj (o_adj a)) -> ~ In r (refs_of_adj (o_adj b)).
+Proof. exact copy_separate. Qed.
+Print Assumptions C13_copy_separate_partial.
+
+(* copy(): same view as the source, own bond objects, _changed copied, _backup None, empty cache *)
+Theorem C13_copy_independent : forall s, W s -> snd (step s OCopy) = None ->
+  exists c, s_others (fst (step s OCopy)) = c :: s_others s /\ s_cur (fst (step s OCopy)) = s_cur s /\
+    view_of (s_heap (fst (step s OCopy))) c = view_of (s_heap s) (s_cur s) /\
+    view_of (s_heap (fst (step s OCopy))) (s_cur s) = view_of (s_heap s) (s_cur s) /\
+    o_changed c = o_changed (s_cur s) /\ o_backup c = None /\ o_cache c = [] /\
+    (forall r, In r (refs_of_adj (o_adj (s_cur s))) -> ~ In r (refs_of_adj (o_adj c))).
+Proof. exact copy_independent. Qed.
+Print Assumptions C13_copy_independent.
+
+(* editing one molecule leaves what every other live molecule shows unchanged *)
+Theorem C13_edits_leave_others_alone : forall s p, W s -> op_ok s p -> body_op p = true ->
+  forall o, In o (s_others s) ->
+    In o (s_others (fst (step s p))) /\ view_of (s_heap (fst (step s p))) o = view_of (s_heap s) o.
+Proof. exact edits_leave_others_alone. Qed.
+Print Assumptions C13_edits_leave_others_alone.
+
+(* exit_exn . ops . enter restores atoms (with stored hydrogens and labels), bonds, name, meta, _changed, clears _backup,
+   keeps the ring-family / component entries of the cache, and the result satisfies the invariant again *)
+Theorem C13_transaction_atomic_partial : forall s ops, W s -> snd (step s OEnter) = None ->
+  ops_ok (fst (step s OEnter)) ops -> body_ops ops = true ->
+  let s3 := fst (step (run ops (fst (step s OEnter))) OExitExn) in
+  snd (step (run ops (fst (step s OEnter))) OExitExn) = None /\
+  view_of (s_heap s3) (s_cur s3) = view_of (s_heap s) (s_cur s) /\
+  o_name (s_cur s3) = o_name (s_cur s) /\ o_meta (s_cur s3) = o_meta (s_cur s) /\
+  o_changed (s_cur s3) = o_changed (s_cur s) /\ o_backup (s_cur s3) = None /\
+  o_cache (s_cur s3) = filter (kept true true) (o_cache (s_cur s)) /\
+  W s3.
+Proof. exact transaction_atomic. Qed.
+Print Assumptions C13_transaction_atomic_partial.
+
+(* the selective flush of the Standardize patch step keeps ring-family entries only when neither the old nor the new order
+   of the edited bond is 8: the non-special connectivity (and the connectivity) is then unchanged *)
+Theorem C13_keep_sssr_sound : forall h o o1 rf cl bo,
+  o_adj o1 = o_adj o -> hget h rf = Some cl -> (b_ord cl =? 8) || (bo =? 8) = false ->
+  nsconn (view_of h o) = nsconn (view_of (hset h rf (mkB bo (b_lab cl))) o1) /\
+  conn (view_of h o) = conn (view_of (hset h rf (mkB bo (b_lab cl))) o1).
+Proof. exact keep_sssr_sound. Qed.
+Print Assumptions C13_keep_sssr_sound.
+
+(* and in the state machine: after the patch operation on a well formed coherent molecule nothing happened or the cache is coherent *)
+Theorem C13_patch_coherent : forall n m bo dch h o, inv1 h o -> CohFC h o ->
+  match patch n m bo dch h o with (h', o', _) => (h', o') = (h, o) \/ Coh h' o' end.
+Proof. exact patch_strong. Qed.
+Print Assumptions C13_patch_coherent.
+
+(* non-vacuity: a read - delete - read history, and a transaction that really changes the molecule and is rolled back *)
+Theorem C13_read_delete_read_example :
+  ops_ok empty_state read_delete_read /\
+  trace read_delete_read empty_state = repeat None 12 /\
+  (let s0 := run build_ring empty_state in
+   let s := run read_delete_read empty_state in
+   match cget (o_cache (s_cur s0)) Ksssr, cget (o_cache (s_cur s)) Ksssr with
+   | Some old, Some new =>
+       equivb Ksssr new (view_of (s_heap s) (s_cur s)) = true /\
+       equivb Ksssr old (view_of (s_heap s) (s_cur s)) = false
+   | _, _ => False
+   end).
+Proof. exact read_delete_read_example. Qed.
+Print Assumptions C13_read_delete_read_example.
+
+Theorem C13_transaction_example :
+  let s := run build_cco empty_state in
+  W s /\ snd (step s OEnter) = None /\ ops_ok (fst (step s OEnter)) txn_body /\ body_ops txn_body = true /\
+  view_eqb (view_of (s_heap (run txn_body (fst (step s OEnter)))) (s_cur (run txn_body (fst (step s OEnter)))))
+           (view_of (s_heap s) (s_cur s)) = false /\
+  trace [OExitExn; OAddAtom nitrogen None; OAddBond 3 4 1; ODelAtom 1] (run txn_body (fst (step s OEnter))) = [None; None; None; None].
+Proof. exact transaction_example. Qed.
+Print Assumptions C13_transaction_example.
